@@ -434,6 +434,11 @@ def procStepCore0 (st : ProcEng) (t : Tokens) (_impl : Option String) : ProcEng 
         let (s, reqs) := harvestReply st.s r o
         ({ st with s := s }, { model := s!"reqs={canonReqsT st.tainted reqs}" })
   | "taint" => ({ st with tainted := tokStr t 2 :: st.tainted }, { model := "ok" })
+  -- park / unpark: the loop is held while other applications' harvests and traffic are handled; in the model the events of
+  -- DIFFERENT applications commute, so they are applied as the ops come (the generator uses park only across applications
+  -- and only for failures that make no request)
+  | "park" => (st, { model := "ok" })
+  | "unpark" => (st, { model := "reqs=-" })
   | "logscan" =>
     (st, { model := "leak=0", specFails := match _impl with
       | some line => if line.startsWith "leak=1" then
